@@ -45,6 +45,32 @@ Definition holds_cfg_case (c : cfg_case) : bool :=
   | None => negb (cc_new_ok c)
   end.
 
+(* consecutive sessions of ONE stub object: the hook behaviour per session and what the runtime end saw *)
+Record sess_case := { sc_plugin : N; sc_hooks : list cfg_hook; sc_obs : list cfg_obs }.
+
+Definition obs_matches (model : cfg_result) (o : cfg_obs) : bool :=
+  match o with
+  | OResult r => cfg_result_eqb model r
+  | ORejected => match model with COk _ => false | _ => true end
+  end.
+
+Fixpoint all2 {A B} (f : A -> B -> bool) (a : list A) (b : list B) : bool :=
+  match a, b with
+  | [], [] => true
+  | x :: r, y :: s => f x y && all2 f r s
+  | _, _ => false
+  end.
+
+Definition corr_sess (c : sess_case) : bool :=
+  all2 obs_matches (sessions (sc_plugin c) (sc_hooks c)) (sc_obs c).
+
+(* every session is judged as a first session *)
+Definition holds_sess (c : sess_case) : bool :=
+  all2 (fun h o => match o with
+                   | OResult r => holds_cfg (sc_plugin c) h r
+                   | ORejected => holds_cfg (sc_plugin c) h CErrHook || holds_cfg (sc_plugin c) h CErrUnhandled
+                   end) (sc_hooks c) (sc_obs c).
+
 (* delivery: the message the scripted runtime end sent (carrier, event number, one token per
    field; "" = absent), what each plugin method was scripted to return, and the observation:
    the recorded invocations (method, tokens of its arguments) and what the runtime end got back *)
